@@ -11,6 +11,7 @@ package main
 //	(*os.File).Write(p)              -> verifOSFileWrite(f *os.File, p []byte) (int, error)
 //	(*os.File).Read(p)               -> verifOSFileRead(f *os.File, p []byte) (int, error)
 //	(*os.File).ReadFrom(r)           -> verifOSFileReadFrom(f *os.File, r io.Reader) (int64, error)
+//	(*os.File).Readdirnames(n)       -> verifOSFileReaddirnames(f *os.File, n int) ([]string, error)
 //	(*os.File).Close()               -> verifOSFileClose(f *os.File) error
 //	(*os.File).Name()                -> verifOSFileName(f *os.File) string
 //	os.Rename(old, new)              -> verifOSRename(oldpath, newpath string) error
@@ -41,6 +42,7 @@ func init() {
 	reg("(*os.File).Write", delegateToHarness("verifOSFileWrite"))
 	reg("(*os.File).Read", delegateToHarness("verifOSFileRead"))
 	reg("(*os.File).ReadFrom", delegateToHarness("verifOSFileReadFrom"))
+	reg("(*os.File).Readdirnames", delegateToHarness("verifOSFileReaddirnames"))
 	reg("(*os.File).Close", delegateToHarness("verifOSFileClose"))
 	reg("(*os.File).Name", delegateToHarness("verifOSFileName"))
 	reg("os.Rename", delegateToHarness("verifOSRename"))
